@@ -52,13 +52,18 @@ func hvExtra(pv *sipsp.PHdrVals, sb *strings.Builder) {
 	mx, ok := pv.MaxExpires()
 	fmt.Fprintf(sb, "MaxExpires()=%d,%v\n", mx, ok)
 	c := &pv.Contacts
-	fmt.Fprintf(sb, "Contacts.VNo=%d More=%v Parsed=%v\n", c.VNo(), c.More(), c.Parsed())
+	fmt.Fprintf(sb, "Contacts.VNo=%d More=%v\n", c.VNo(), c.More())
+	fmt.Fprintf(sb, "Contacts.Parsed=%v Empty=%v\n", c.Parsed(), c.Empty())
 	dumpFrom(sb, "GetContact(0)", c.GetContact(0))
 	if c.N > 0 {
 		dumpFrom(sb, "GetContact(N-1)", c.GetContact(c.N-1))
 	}
 	p := &pv.PAIs
-	fmt.Fprintf(sb, "PAIs.VNo=%d More=%v Parsed=%v\n", p.VNo(), p.More(), p.Parsed())
+	fmt.Fprintf(sb, "PAIs.VNo=%d More=%v Parsed=%v Empty=%v\n", p.VNo(), p.More(), p.Parsed(), p.Empty())
+	dumpFrom(sb, "GetPAI(0)", p.GetPAI(0))
+	if p.N > 0 && p.N <= p.VNo() {
+		dumpFrom(sb, "GetPAI(N-1)", p.GetPAI(p.N-1))
+	}
 	fmt.Fprintf(sb, "From.Parsed=%v To.Parsed=%v Callid.Parsed=%v CSeq.Parsed=%v CLen.Parsed=%v Expires.Parsed=%v\n",
 		pv.From.Parsed(), pv.To.Parsed(), pv.Callid.Parsed(), pv.CSeq.Parsed(), pv.CLen.Parsed(), pv.Expires.Parsed())
 }
@@ -196,7 +201,7 @@ var contactsDrv = &Driver[sipsp.PContacts]{
 	},
 	Lens: func(o *sipsp.PContacts) map[string]int { return map[string]int{".Vals": o.VNo()} },
 	Extra: func(o *sipsp.PContacts, buf []byte, sb *strings.Builder) {
-		fmt.Fprintf(sb, "VNo=%d More=%v Parsed=%v\n", o.VNo(), o.More(), o.Parsed())
+		fmt.Fprintf(sb, "VNo=%d More=%v Parsed=%v Empty=%v\n", o.VNo(), o.More(), o.Parsed(), o.Empty())
 		dumpFrom(sb, "GetContact(0)", o.GetContact(0))
 		if o.N > 0 {
 			dumpFrom(sb, "GetContact(N-1)", o.GetContact(o.N-1))
@@ -211,7 +216,7 @@ var paisDrv = &Driver[sipsp.PPAIs]{
 		return sipsp.ParseAllPAIValues(buf, offs, o)
 	},
 	Extra: func(o *sipsp.PPAIs, buf []byte, sb *strings.Builder) {
-		fmt.Fprintf(sb, "VNo=%d More=%v Parsed=%v\n", o.VNo(), o.More(), o.Parsed())
+		fmt.Fprintf(sb, "VNo=%d More=%v Parsed=%v Empty=%v\n", o.VNo(), o.More(), o.Parsed(), o.Empty())
 		dumpFrom(sb, "GetPAI(0)", o.GetPAI(0))
 		dumpFrom(sb, "GetPAI(1)", o.GetPAI(1))
 	},
